@@ -476,7 +476,10 @@ func (c *Ctx) hookSummary(b string, f *ssa.Function, depth int) []opSummary {
 				// a guard on state the hook keeps for itself (a cache, a flag) or on the hook's own parameters other than
 				// plumbing: the siblings would have to share it
 				(strings.Contains(t, "h.") && !strings.Contains(t, "h.db") && !strings.Contains(t, "h.Log") && !strings.Contains(t, "h.config") && !strings.Contains(t, "h.ctx")) ||
-				strings.Contains(t, "errors.Is(err,")
+				strings.Contains(t, "errors.Is(err,") ||
+				// a guard on the event's packet (its type, flags): "this kind of packet is not stored" must hold for all
+				// backends or for none
+				strings.Contains(t, "pk.")
 			if !keep {
 				continue
 			}
@@ -491,12 +494,23 @@ func (c *Ctx) hookSummary(b string, f *ssa.Function, depth int) []opSummary {
 		// a flag): the siblings do not share that state, so the operation is conditional here and not there
 		for _, b := range f.Blocks {
 			t, _, ok := condOf(b)
-			if !ok || !strings.Contains(t, "h.") || strings.Contains(t, "h.db") || strings.Contains(t, "h.Log") || strings.Contains(t, "h.config") || strings.Contains(t, "h.ctx") {
+			if !ok {
+				continue
+			}
+			onHookState := strings.Contains(t, "h.") && !strings.Contains(t, "h.db") && !strings.Contains(t, "h.Log") && !strings.Contains(t, "h.config") && !strings.Contains(t, "h.ctx")
+			// … or depending on the event's packet (`if pk.FixedHeader.Type == Publish && pk.FixedHeader.Dup { return }`:
+			// no single edge dominates the operation, so the guard list above does not show it)
+			onPacket := strings.Contains(t, "pk.")
+			if !onHookState && !onPacket {
 				continue
 			}
 			last := b.Instrs[len(b.Instrs)-1]
 			if _, hit := (&PathQuery{Fn: f, From: last, Target: anyReturn, Barrier: isIns(ins)}).Find(); hit != nil && reachableFrom(last, ins) {
-				gs = append(gs, "skippable-on-hook-state:"+t)
+				if onHookState {
+					gs = append(gs, "skippable-on-hook-state:"+t)
+				} else {
+					gs = append(gs, "skippable-on-packet:"+t)
+				}
 			}
 		}
 		sort.Strings(gs)
